@@ -23,6 +23,9 @@ pub struct C03Case {
     /// tag every k-th committed sample (0 = none)
     pub tag_every: u8,
     pub decisions: Vec<u8>,
+    /// notification-faithful timed waits (a timeout fires only when nobody else can run)
+    #[serde(default)]
+    pub faithful: bool,
 }
 
 fn case_strategy(max_dec: usize) -> BoxedStrategy<C03Case> {
@@ -33,8 +36,9 @@ fn case_strategy(max_dec: usize) -> BoxedStrategy<C03Case> {
         prop::collection::vec((sz(), sz()), 1..14),
         prop_oneof![Just(0u8), 1u8..50],
         decisions_strategy(max_dec),
+        any::<bool>(),
     )
-        .prop_map(|(pages, produce, consume, tag_every, decisions)| C03Case { pages, produce, consume, tag_every, decisions })
+        .prop_map(|(pages, produce, consume, tag_every, decisions, faithful)| C03Case { pages, produce, consume, tag_every, decisions, faithful })
         .boxed()
 }
 
@@ -271,7 +275,25 @@ impl Prop for C03 {
         let totals = Arc::new((AtomicU64::new(0), AtomicU64::new(0)));
         let c = case.clone();
         let (r2, t2) = (reg.clone(), totals.clone());
-        let ex = explore(&case.decisions, 400_000, move || scenario(&c, r2.clone(), t2.clone()));
+        let ex = if case.faithful {
+            ctx.class("timed waits: notification-faithful");
+            explore_faithful(&case.decisions, 400_000, move || scenario(&c, r2.clone(), t2.clone()))
+        } else {
+            ctx.class("timed waits: time out after 0-3 yields");
+            explore(&case.decisions, 400_000, move || scenario(&c, r2.clone(), t2.clone()))
+        };
+        if ex.timeouts_fired > 0 {
+            ctx.class("faithful: a timeout fired as last resort");
+        }
+        if ex.lost_wakeups > 0 {
+            ctx.fail(
+                "C03/sched/lost-wakeup".to_string(),
+                format!(
+                    "{} timed wait(s) slept through the commit/consume that satisfied them: the stream state changed to what the waiter asked for, nobody notified the condition variable between the waiter going to sleep and its timeout (with real threads the waiter sleeps out the whole timeout) [{} steps]",
+                    ex.lost_wakeups, ex.steps
+                ),
+            );
+        }
         let reg = reg.lock().unwrap();
         for (sig, msg) in &reg.fails {
             ctx.fail(sig.clone(), format!("{msg} [{} steps, {} pre-emptions]", ex.steps, ex.preemptions));
@@ -306,7 +328,7 @@ impl Prop for C03 {
         }
     }
     fn rule(&self) -> String {
-        "generated: stream size (1-2 pages of u32), producer plan [(fill k, commit n<=k)], consumer plan [(need, consume m)], tag density, and a scheduler decision stream; producer and consumer are harness tasks using only the public stream API (free, wait, write_buf, produce, read_buf, consume, eof) with extra scheduling points while a window is being filled/read. One case = one execution on the shuttle runtime through the verif sync shim. Oracle (history invariant): every read window shows exactly the next committed values (nothing torn, stale, duplicated, skipped), tags sit on their samples and, over every consumed stretch, are exactly the producer's (none lost, none twice), totals match after the producer left; every window acquisition is checked against all live windows of the other side for disjointness in ring coordinates (pointer -> ring offset). A real-thread run (std primitives, two OS threads, 4e5 / 2e7 samples through a 1-page stream) checks the data and that free() <= window <= free() around every window acquisition of the producer. Non-trivial: >= 2 window acquisitions while a window of the other side was live, and the stream wrapped; distinct = hash of (scenario, decisions).".into()
+        "generated: stream size (1-2 pages of u32), producer plan [(fill k, commit n<=k)], consumer plan [(need, consume m)], tag density, and a scheduler decision stream; producer and consumer are harness tasks using only the public stream API (free, wait, write_buf, produce, read_buf, consume, eof) with extra scheduling points while a window is being filled/read. One case = one execution on the shuttle runtime through the verif sync shim; in half of the cases timed waits time out after 0-3 yields whatever happens, in the other half they are notification-faithful (the waiter sleeps until the condition variable is notified, its timeout fires only when every runnable task sleeps in such a wait) and a wait that ends by timeout and then finds its request satisfied without any notification since it went to sleep is a lost wake-up (waits are not atomic with commits). Oracle (history invariant): every read window shows exactly the next committed values (nothing torn, stale, duplicated, skipped), tags sit on their samples and, over every consumed stretch, are exactly the producer's (none lost, none twice), totals match after the producer left; every window acquisition is checked against all live windows of the other side for disjointness in ring coordinates (pointer -> ring offset). A real-thread run (std primitives, two OS threads, 4e5 / 2e7 samples through a 1-page stream) checks the data and that free() <= window <= free() around every window acquisition of the producer. Non-trivial: >= 2 window acquisitions while a window of the other side was live, and the stream wrapped; distinct = hash of (scenario, decisions).".into()
     }
     fn assumptions(&self) -> Vec<String> {
         vec![
